@@ -1,5 +1,7 @@
 import UtilModel.CSync.RWProps
 import UtilModel.CSync.MxProps
+import UtilModel.CSync.RWObsC02
+import UtilModel.CSync.MxObsC02
 open UtilModel UtilModel.CSync
 #print axioms UtilModel.accepts_sound
 #print axioms RW.reachable_inv
@@ -12,3 +14,6 @@ open UtilModel UtilModel.CSync
 #print axioms Mx.free_enabled
 #print axioms Mx.quiescent_locked
 #print axioms Mx.cancel_no_trace
+#print axioms RW.C02_obs_rw
+#print axioms Mx.C02_obs_mutex
+#print axioms UtilModel.monitor_of_simulation
